@@ -42,32 +42,21 @@ fn main() {
         // fails one of the named obligations natively; print its draws
         let seed: u64 = args[3].parse().expect("seed");
         let budget: u64 = args[4].parse().expect("budget");
-        let wanted: Vec<&str> = args[5..].iter().map(|s| s.as_str()).collect();
-        let mut found = false;
-        for i in 0..budget {
-            native::reset();
+        let wanted: Vec<String> = args[5..].to_vec();
+        fn reset_all() {
             rusqlite::reset_for_replay();
             vk::model::reset_globals();
-            let mut pool = Pool::searching(seed.wrapping_mul(0x9E3779B97F4A7C15).wrapping_add(i.wrapping_mul(0xD1B54A32D192ED03)));
-            let r = std::panic::catch_unwind(std::panic::AssertUnwindSafe(|| f(&mut pool)));
-            let assume_failed = native::ASSUME_FAILED.with(|x| *x.borrow());
-            if assume_failed || (r.is_err()) {
-                continue;
+        }
+        let mut found = false;
+        if let Some((vals, fails)) = native::search(f, seed, budget, &wanted, reset_all) {
+            println!("FOUND");
+            for v in vals.iter() {
+                println!("VALS {}", v.iter().map(|b| b.to_string()).collect::<Vec<_>>().join(" "));
             }
-            let hit = native::FAILS.with(|x| x.borrow().iter().any(|s| wanted.iter().any(|w| w == s)));
-            if hit {
-                println!("FOUND {}", i);
-                for v in pool.trace.iter() {
-                    println!("VALS {}", v.iter().map(|b| b.to_string()).collect::<Vec<_>>().join(" "));
-                }
-                native::FAILS.with(|x| {
-                    for s in x.borrow().iter() {
-                        println!("FAIL {}", s);
-                    }
-                });
-                found = true;
-                break;
+            for s in fails.iter() {
+                println!("FAIL {}", s);
             }
+            found = true;
         }
         if !found {
             println!("NOTFOUND");
